@@ -118,6 +118,40 @@ func genC01RecreatedPhase(t *rapid.T) *Scenario {
 	return sc
 }
 
+// genC01SeveralPrevious: a directed family: three revisions, the newest declaring both others as previous (in either
+// order); the object it has to take over is controlled by the one that is *not* last in that list, the other previous
+// revision never had it.
+func genC01SeveralPrevious(t *rapid.T) *Scenario {
+	sc := &Scenario{Prop: "C01"}
+	class := func() string { return rapid.SampledFrom([]string{"", "", engine.ClassDefault}).Draw(t, "class") }
+	x := rapid.IntRange(0, 3).Draw(t, "x")
+	s0 := SetSpec{Phases: []PhaseSpec{{Name: "p0", Class: class(), Objs: []ObjSpec{{Pool: x}}}}}
+	s1 := SetSpec{Phases: []PhaseSpec{{Name: "p0", Class: class(), Objs: []ObjSpec{{Pool: x + 1}}}}}
+	holder, other := 0, 1
+	if rapid.Bool().Draw(t, "holderSecond") {
+		// the holder of X is the middle revision, the oldest one never had it
+		s0, s1 = s1, s0
+		holder, other = 1, 0
+	}
+	if holder == 1 || rapid.Bool().Draw(t, "chained") {
+		s1.Previous = []int{0}
+	}
+	sc.Steps = append(sc.Steps, Step{Op: "createSet", Set: &s0}, Step{Op: "quiesce"}, Step{Op: "createSet", Set: &s1}, Step{Op: "quiesce"})
+	s2 := SetSpec{Phases: []PhaseSpec{{Name: "p0", Class: class(), Objs: []ObjSpec{{Pool: x, Variant: 1, CP: rapid.SampledFrom(allCPs).Draw(t, "cp")}}}}}
+	// the holder is listed first, the revision that never had X last
+	s2.Previous = []int{holder, other}
+	if rapid.IntRange(0, 3).Draw(t, "holderLast") == 0 {
+		s2.Previous = []int{other, holder}
+	}
+	sc.Steps = append(sc.Steps, Step{Op: "createSet", Set: &s2})
+	ctrls := []string{engine.CtrlObjectSet, engine.CtrlObjectSet, engine.CtrlObjectSetPhase}
+	for i := rapid.IntRange(0, 5).Draw(t, "nrec"); i > 0; i-- {
+		sc.Steps = append(sc.Steps, GenReconcile(t, ctrls))
+	}
+	sc.Steps = append(sc.Steps, Step{Op: "quiesce"})
+	return sc
+}
+
 func TestC01(t *testing.T) {
 	st := NewStats("C01", "engine", "scenario = 1-3 hand-made ObjectSets (local/delegated phases incl. the annotation-strategy phase controller, all collisionProtection values, previous links, forced adoption on/off) + third parties creating/re-owning/relabelling pool objects between passes; non-trivial = a pass observed an existing object not controlled by its owner")
 	opts := SetGenOpts{AllowClass: true, Classes: []string{engine.ClassDefault, engine.ClassDefault, engine.ClassRemote}, CPs: allCPs, PoolSize: 5, MaxObjs: 2, MaxPhases: 3}
@@ -130,15 +164,18 @@ func TestC01(t *testing.T) {
 	}, func(rt *rapid.T) {
 		// (a third party deleting an ObjectSetPhase object: PKO restores it under the same name with a new uid, and later
 		// revisions have to recognise the restored phase object as part of their predecessor)
-		if rapid.IntRange(0, 7).Draw(rt, "family") == 0 {
+		if f := rapid.IntRange(0, 7).Draw(rt, "family"); f <= 1 {
 			sc := genC01RecreatedPhase(rt)
+			if f == 1 {
+				sc = genC01SeveralPrevious(rt)
+			}
 			r, m := mk(sc)
 			err := r.Run()
 			st.Count("passes", int64(len(r.W.Passes)))
 			for d, n := range m.Decisions {
 				st.Count("decision:"+d, int64(n))
 			}
-			st.Case(sc, r.Labels["c01-observed-foreign"], append(r.LabelList(), "family-recreated-phase")...)
+			st.Case(sc, r.Labels["c01-observed-foreign"], append(r.LabelList(), "family-directed")...)
 			st.Report(rt, sc, err)
 			return
 		}
